@@ -20,12 +20,11 @@ func init() {
 		return
 	}
 	run := p.run
-	p.run = func(r *Run) { run(r); c20UnsignedIndex(r) }
+	p.run = func(r *Run) { run(r); c20UnsignedIndex(r, "R-5") }
 	p.explain += " R-5: no table of runtime.Function is indexed with an expression of a signed 8- or 16-bit type (operands above 127 are negative as int8)."
 }
 
-func c20UnsignedIndex(r *Run) {
-	const R = "R-5"
+func c20UnsignedIndex(r *Run, R string) {
 	fnT := r.P.Named("internal/runtime", "Function")
 	if !r.Anchor(R, "runtime.Function", fnT != nil) {
 		return
